@@ -194,7 +194,14 @@ def ndbc(rng, with_moments=True, singleton_latlon=None):
     f = np.linspace(0.02, 0.02 + 0.01 * nf, nf)
     c11 = 10 ** rng.uniform(-3, 1, (nt, nf))
     a1, a2 = rng.uniform(0, 360, (nt, nf)), rng.uniform(0, 360, (nt, nf))
-    r1, r2 = rng.uniform(0, 0.9, (nt, nf)), rng.uniform(0, 0.5, (nt, nf))
+    r1, r2 = rng.uniform(0, 1.0, (nt, nf)), rng.uniform(0, 1.0 if rng.random() < 0.3 else 0.5, (nt, nf))
+    if rng.random() < 0.5:
+        # NDBC reports the moments in hundredths; the legal end values 0.00 and 1.00 occur (narrow swell)
+        r1, r2 = np.round(r1, 2), np.round(r2, 2)
+        for r in (r1, r2):
+            k = rng.random(r.shape)
+            r[k < 0.08] = 1.0
+            r[k > 0.95] = 0.0
     sll = bool(rng.random() < 0.5) if singleton_latlon is None else singleton_latlon
     dims = ("time", "frequency", "latitude", "longitude") if sll else ("time", "frequency")
 
